@@ -7,7 +7,8 @@ from vflib import ROOT, CACHE
 
 SUBCHECK = {1: "K-norm", 2: "K-valid(loader)", 3: "K-apply(replay)", 4: "K-diff(plan_next)",
             5: "K-valid(find_missing_fill_with)", 6: "K-valid(find_missing_enum_fill_with)",
-            7: "K-fill(revision)", 8: "K-valid(validate_migration_plan)", 9: "K-prefix"}
+            7: "K-fill(revision)", 8: "K-valid(validate_migration_plan)", 9: "K-prefix",
+            10: "K-valid(validate_migration_plan, unfilled plan)"}
 
 
 def tree_hash(paths):
@@ -265,9 +266,12 @@ def planner_dependency(chk):
     if "build_error" in res or "coq_error" in res:
         chk.violation(vflib.write_replay(chk.prop, "correspondence:m1-build", {"log": (res.get("build_error") or res.get("coq_error"))[-1500:]}), True)
         return
-    rel = {i: [s for s in subs if s in (3, 4)] for i, subs in res["mismatches"].items()}
+    wanted = (3, 4, 8, 10) if chk.prop in ("C05", "C12", "C13") else (3, 4)
+    rel = {i: [s for s in subs if s in wanted] for i, subs in res["mismatches"].items()}
     rel = {i: s for i, s in rel.items() if s}
     corr = chk.cov.setdefault("correspondences", {})
+    if isinstance(corr, dict) and 8 in wanted:
+        corr["K-valid(m1, validate_migration_plan filled+unfilled)"] = {"cases": len(res["rows"]), "mismatches": sum(1 for s in rel.values() if 8 in s or 10 in s)}
     if isinstance(corr, dict):
         corr["K-apply(m1, planner dependency)"] = {"cases": len(res["rows"]), "mismatches": sum(1 for s in rel.values() if 3 in s)}
         corr["K-diff(m1, planner dependency)"] = {"cases": len(res["rows"]), "mismatches": sum(1 for s in rel.values() if 4 in s)}
